@@ -5,6 +5,7 @@ import (
 
 	"github.com/bradenaw/juniper/stream"
 
+	"verifsim/context"
 	"verifsim/sim"
 	"verifsim/time"
 )
@@ -49,7 +50,15 @@ func batchWorld(r *R) {
 	}
 	var srcErr error
 	if r.Choose(4, "srcerr") == 3 {
-		srcErr = NewErr("srcE")
+		// mostly a private error value; sometimes one the library also produces itself
+		switch r.Choose(6, "srcerr-value") {
+		case 4:
+			srcErr = context.Canceled
+		case 5:
+			srcErr = context.DeadlineExceeded
+		default:
+			srcErr = NewErr("srcE")
+		}
 		src.Err = srcErr
 		src.ErrAt = r.Choose(n+1, "srcerr-at")
 	}
@@ -146,7 +155,12 @@ func batchWorld(r *R) {
 				}
 				continue
 			}
+			ownCtx := err != nil && ctx != root && ctx.Dead() && err == ctx.C.Err()
 			switch {
+			case ownCtx:
+				// this call's own context ended (if the source failed with the same well-known value
+				// the next call with a live context will say so again)
+				r.Probe("next-cancelled-then-retried")
 			case err == nil:
 				if len(b) == 0 {
 					r.Violate("C11", "empty-batch", "Next returned an empty batch")
